@@ -95,7 +95,7 @@ fn gen_hide_case(rng: &mut Rng, sw: &Swarm, forced_attr: u16, sm: &mut Rng) -> H
         3 => room,
         _ => rng.urange(0, room.min(40)),
     };
-    let secret_len = *rng.pick(&[0usize, 1, 15, 16, 17, 64, 5, 8, 33]);
+    let secret_len = secret_len(rng);
     let rvb = rng.bytes(4);
     let apb = rng.bytes(16);
     let mut ap = [0u8; 16];
@@ -344,7 +344,7 @@ impl Scenario for C11 {
     }
     fn meta() -> Meta {
         Meta {
-            rule: "FAULT-FREE BASELINE: no fault or schedule space is searched for this property. Two nodes share (secret, random vector). Each run hides 6 AVPs (the run's forced kind twice, so all 39 non-hidden kinds recur every 39 runs) with secret length in {0,1,5,8,15,16,17,33,64}, length padding chosen to hit block counts 1,2,3,4,63 and residues 0,1,15 of (2+|payload|+|lp|) mod 16 (no / minimal / maximal alignment padding) or PRNG, and reveals either directly or after AVP::write -> delivery -> try_read_greedy through a PRNG reader; plus one identity check (hide of a hidden AVP, reveal of a plain AVP). Oracle: reveal(hide(a,s,rv,lp,ap),s,rv) = Ok(a). distinct_nontrivial = distinct (AVP, secret, rv, paddings) tuples.",
+            rule: "FAULT-FREE BASELINE: no fault or schedule space is searched for this property. Two nodes share (secret, random vector). Each run hides 6 AVPs (the run's forced kind twice, so all 39 non-hidden kinds recur every 39 runs) with secret length over {0,1,5,8,15,16,17,33,55,56,64, 119-128, 239-257, PRNG 0-300, 300-4096}, length padding chosen to hit block counts 1,2,3,4,63 and residues 0,1,15 of (2+|payload|+|lp|) mod 16 (no / minimal / maximal alignment padding) or PRNG, and reveals either directly or after AVP::write -> delivery -> try_read_greedy through a PRNG reader; plus one identity check (hide of a hidden AVP, reveal of a plain AVP). Oracle: reveal(hide(a,s,rv,lp,ap),s,rv) = Ok(a). distinct_nontrivial = distinct (AVP, secret, rv, paddings) tuples.",
             assumptions: vec!["self-relative (no reference model in the verdict); block-count and residue probes are reported"],
             real: vec!["AVP::hide", "AVP::reveal", "AVP::write", "AVP::try_read_greedy", "md5 crate as linked by rl2tp"],
             stub: vec!["secret store shared by the two nodes", "reader back-ends"],
